@@ -237,12 +237,12 @@ Print Assumptions fixed_validator_cf_sound.
 
 Theorem fixed_validator_bindings_complete :
   forall m, binding_rule_ok m -> binding_errors_fx (validate_model_fx m) = [].
-Proof. intros m H. now apply fixed_bindings_exact. Qed.
+Proof. intros m H. now apply (fixed_bindings_exact false). Qed.
 Print Assumptions fixed_validator_bindings_complete.
 
 Theorem fixed_validator_bindings_sound :
   forall m, binding_errors_fx (validate_model_fx m) = [] -> binding_rule_ok m.
-Proof. intros m H. now apply fixed_bindings_exact. Qed.
+Proof. intros m H. now apply (fixed_bindings_exact false). Qed.
 Print Assumptions fixed_validator_bindings_sound.
 
 (* the witnesses that refute completeness of the pinned validator are accepted by the repaired one,
@@ -262,3 +262,49 @@ Example fixed_validator_on_witnesses :
     [mkverr VBreakInContinuing "helper" 0 None; mkverr VContinueOutsideLoop "helper" 1 None] /\
   validate_model_fx m_two_pairs_one_ep = [mkverr VEpDupBinding "" (-1) None].
 Proof. repeat split; vm_compute; reflexivity. Qed.
+
+(* ------------------------------------------------------------------ *)
+(* the suite-safe repair (validate_suitesafe.diff, [validate_model_fx2]): as above, but discard inside a
+   continuing block is still reported.  Complete under exactly that side condition; bindings complete. *)
+
+Theorem fixed2_validator_cf_exact :
+  forall m, cf_errors (validate_model_fx2 m) = [] <->
+            forall f, In f (m_functions m) -> cf_legal (f_body f) /\ no_discard_in_continuing (f_body f).
+Proof. exact fixed2_cf_exact. Qed.
+Print Assumptions fixed2_validator_cf_exact.
+
+Theorem fixed2_validator_cf_complete_partial :
+  forall m, (forall f, In f (m_functions m) -> cf_legal (f_body f)) ->
+            (forall f, In f (m_functions m) -> no_discard_in_continuing (f_body f)) ->
+            cf_errors (validate_model_fx2 m) = [].
+Proof. intros m H1 H2. apply fixed2_cf_exact. intros f Hf. split; auto. Qed.
+Print Assumptions fixed2_validator_cf_complete_partial.
+
+Theorem fixed2_validator_cf_sound :
+  forall m, cf_errors (validate_model_fx2 m) = [] -> forall f, In f (m_functions m) -> cf_legal (f_body f).
+Proof. intros m H f Hf. exact (proj1 (proj1 (fixed2_cf_exact m) H f Hf)). Qed.
+Print Assumptions fixed2_validator_cf_sound.
+
+(* finding (c) stays: a legal module with discard in a continuing block is still rejected *)
+Theorem fixed2_validator_cf_complete_refuted :
+  all_bodies_legal m_discard_in_continuing /\
+  validate_model_fx2 m_discard_in_continuing = [mkverr VKillInContinuing "helper" 0 None].
+Proof. split; [apply all_bodies_legal_b|]; vm_compute; reflexivity. Qed.
+Print Assumptions fixed2_validator_cf_complete_refuted.
+
+Theorem fixed2_validator_bindings_complete :
+  forall m, binding_rule_ok m -> binding_errors_fx (validate_model_fx2 m) = [].
+Proof. intros m H. now apply (fixed_bindings_exact true). Qed.
+Print Assumptions fixed2_validator_bindings_complete.
+
+Theorem fixed2_validator_bindings_sound :
+  forall m, binding_errors_fx (validate_model_fx2 m) = [] -> binding_rule_ok m.
+Proof. intros m H. now apply (fixed_bindings_exact true). Qed.
+Print Assumptions fixed2_validator_bindings_sound.
+
+Example fixed2_validator_on_witnesses :
+  validate_model_fx2 m_switch_break = [] /\ validate_model_fx2 m_loop_in_continuing = [] /\
+  validate_model_fx2 m_shared_pair = [] /\ validate_model_fx2 m_rich = [] /\
+  validate_model_fx2 m_two_pairs_one_ep = [mkverr VEpDupBinding "" (-1) None] /\
+  (forall f, In f (m_functions m_rich) -> no_discard_in_continuing (f_body f)).
+Proof. repeat split; try (vm_compute; reflexivity). intros f [<-|[]]. vm_compute. reflexivity. Qed.
